@@ -15,7 +15,9 @@ Model (JSON):
 """
 import json, sys
 
-CTYPE = {"u64": "uint64_t", "i32": "int32_t", "Pt": "struct Pt", "slice": "struct CSliceRef_u8", "ptr": "const uint8_t *", "void": "void"}
+CTYPE = {"u64": "uint64_t", "i32": "int32_t", "Pt": "struct Pt", "slice": "struct CSliceRef_u8", "ptr": "const uint8_t *", "void": "void",
+         "cbPt": "OpaqueCallback_Pt", "cbu64": "OpaqueCallback_u64"}
+CB_ELEM = {"cbPt": ("Pt", "struct Pt"), "cbu64": ("u64", "uint64_t")}
 INST_NAME = {"Box": "CBox_c_void", "Mut": "____c_void", "Ref": "_____c_void"}
 INST_FIELD = {"Box": "struct CBox_c_void instance;", "Mut": "void *instance;", "Ref": "const void *instance;"}
 CTX_NAME = {"none": "NoContext", "Arc": "CArc_c_void", "gen": "Context"}
@@ -86,8 +88,25 @@ def group_suffix(cont, ctx):
 def proto(m, cont_struct):
     recv = {"ref": "const struct %s *cont" % cont_struct, "mut": "struct %s *cont" % cont_struct, "own": "struct %s cont" % cont_struct}[m["recv"]]
     args = "".join(", %s%sa%d" % (CTYPE[t], "" if CTYPE[t].endswith("*") else " ", i) for i, t in enumerate(m["args"]))
-    ret = CTYPE[m["ret"]]
+    ret = ("struct %s" % cont_struct) if m["ret"] == "cont" else CTYPE[m["ret"]]
     return "%s%s(*%s)(%s%s);" % (ret, "" if ret.endswith("*") else " ", m["name"], recv, args)
+
+
+def used_traits(model):
+    used = []
+    for o in model["objects"]:
+        if o["trait"] not in used:
+            used.append(o["trait"])
+    for g in model["groups"]:
+        for t in sorted(g["mand"]) + sorted(g["opt"]):
+            if t not in used:
+                used.append(t)
+    return used
+
+
+def callback_kinds(model):
+    traits = {t["name"]: t for t in model["traits"]}
+    return sorted({a for t in used_traits(model) for m in traits[t]["methods"] for a in m["args"] if a in CB_ELEM})
 
 
 def render(model):
@@ -100,6 +119,10 @@ def render(model):
     out.append("/**\n * Wrapper around const slices.\n */\ntypedef struct CSliceRef_u8 {\n    const uint8_t *data;\n    uintptr_t len;\n} CSliceRef_u8;\n\n")
     out.append("/**\n * FFI-safe box\n */\ntypedef struct CBox_c_void {\n    void *instance;\n    void (*drop_fn)(void*);\n} CBox_c_void;\n\n")
     out.append("/**\n * FFI-Safe Arc\n */\ntypedef struct CArc_c_void {\n    const void *instance;\n    const void *(*clone_fn)(const void*);\n    void (*drop_fn)(const void*);\n} CArc_c_void;\n\n")
+    for cb in callback_kinds(model):
+        mangled, cty = CB_ELEM[cb]
+        out.append("/**\n * FFI compatible callback.\n */\ntypedef struct Callback_c_void__%s {\n    void *context;\n    bool (*func)(void*, %s);\n} Callback_c_void__%s;\n\n" % (mangled, cty, mangled))
+        out.append("typedef struct Callback_c_void__%s OpaqueCallback_%s;\n\n" % (mangled, mangled))
     if foreign:
         out.append("typedef struct BarRetTmp_x {\n    uint64_t keep;\n} BarRetTmp_x;\n\n")
     traits = {t["name"]: t for t in model["traits"]}
